@@ -514,6 +514,17 @@ class _Inliner:
             if mod == self.modname and qual not in present and not moved_to_base(qual):
                 vanished_scopes.add(qual.rsplit(".", 1)[0] if "." in qual else "")
         self.vanished_scopes = vanished_scopes
+        # a reviewed function that has vanished while a new one with the same make-up exists elsewhere in the module has MOVED
+        # (method -> module function, class -> base class): it keeps its identity as a unit, rules find it by role
+        gone = [(_INV_FULL["functions"].get(fq) or {}) for fq in self.inv if fq.split(":")[0] == self.modname and fq.split(":")[1] not in present] if _INV_FULL else []
+        gone = [g for g in gone if g.get("bag")]
+
+        def moved(n):
+            if not gone:
+                return False
+            fp = fingerprint(n)
+            a = set(fp["bag"])
+            return len(a) >= 4 and any(abs(g.get("nparams", -9) - fp["nparams"]) <= 1 and len(a & set(g["bag"])) / max(1, len(a | set(g["bag"]))) >= 0.8 for g in gone)
 
         def visit(body, prefix, cls, parent_fn):
             for n in body:
@@ -521,7 +532,7 @@ class _Inliner:
                     visit(n.body, prefix + n.name + ".", n.name if cls is None else cls, parent_fn)
                 elif isinstance(n, FUNC):
                     qual = prefix + n.name
-                    if prefix.rstrip(".") in vanished_scopes:
+                    if prefix.rstrip(".") in vanished_scopes or (f"{self.modname}:{qual}" not in self.inv and moved(n)):
                         nested(n, prefix + n.name + ".", cls, n)
                         continue
                     if f"{self.modname}:{qual}" not in self.inv and not n.decorator_list or \
